@@ -68,3 +68,12 @@ impl Default for ManualHeap {
         Self::new()
     }
 }
+
+#[cfg(vbxq_aelys_lang_verif)]
+impl ManualHeap {
+    /// verif hook: overwrite the byte charge, so that the overflow branch of `alloc`'s
+    /// checked_add (unreachable otherwise without 2^64 bytes of live buffers) can be driven.
+    pub fn verif_set_bytes_allocated(&mut self, n: usize) {
+        self.bytes_allocated = n;
+    }
+}
